@@ -323,3 +323,75 @@ def op_simulate_walk(req, trace):
         trace.emit({'t': 'tb', 'tb': traceback.format_exc()})
     trace.emit({'t': 'probe', 'name': 'walk', 'p': out})
     _exit_event(trace, status, exc)
+
+
+@register('hint_probe')
+def op_hint_probe(req, trace):
+    """C05: stored signature (through storage) vs target signature (live
+    models): hinted evolution simulated on a clone must leave no residual
+    difference; self / clone / equality-vs-difference agreement."""
+    import json
+    configure(req)
+    from django_evolution.compat.datastructures import OrderedDict
+    from django_evolution.db.state import DatabaseState
+    from django_evolution.diff import Diff
+    from django_evolution.errors import EvolutionException
+    from django_evolution.models import Version
+    from django_evolution.signature import ProjectSignature
+    db = (req.get('args') or {}).get('database', 'default')
+    p = {}
+    status, exc = 'ok', None
+    try:
+        stored = Version.objects.current_version(using=db).signature
+        target = ProjectSignature.from_database(db)
+        st = DatabaseState(db)
+
+        def both_empty(a, b):
+            return (Diff(a, b).is_empty(ignore_apps=False) and
+                    Diff(b, a).is_empty(ignore_apps=False))
+
+        def agree(a, b):
+            return bool(a == b) == both_empty(a, b)
+        d = Diff(stored, target)
+        p['diff_empty'] = d.is_empty(ignore_apps=False)
+        p['diff_text'] = str(d)[:600]
+        hinted = d.evolution()
+        p['hinted'] = dict((k, [str(m) for m in v])
+                           for k, v in hinted.items())
+        sim = stored.clone()
+        sim_errors = []
+        for app_label in hinted:
+            for m in hinted[app_label]:
+                try:
+                    m.run_simulation(app_label=app_label, project_sig=sim,
+                                     database_state=st, database=db)
+                except EvolutionException as e:
+                    sim_errors.append('%s: %s: %s' % (
+                        m, type(e).__name__, e))
+        p['sim_errors'] = sim_errors
+        resid = Diff(sim, target)
+        p['residual_empty'] = resid.is_empty(ignore_apps=False)
+        p['residual'] = str(resid)[:600]
+        p['residual_reverse_empty'] = Diff(target, sim).is_empty(
+            ignore_apps=False)
+        p['self_diff_empty'] = both_empty(stored, stored) and both_empty(
+            target, target)
+        p['clone_diff_empty'] = both_empty(stored, stored.clone()) and \
+            both_empty(target, target.clone())
+        p['clone_eq'] = bool(stored == stored.clone()) and bool(
+            target == target.clone())
+        target2 = ProjectSignature.deserialize(json.loads(
+            json.dumps(target.serialize()), object_pairs_hook=OrderedDict))
+        pairs = {'stored_target': (stored, target),
+                 'stored_clone': (stored, stored.clone()),
+                 'target_roundtrip': (target, target2),
+                 'sim_target': (sim, target)}
+        p['agree'] = dict((k, agree(a, b)) for k, (a, b) in pairs.items())
+        p['eq'] = dict((k, bool(a == b)) for k, (a, b) in pairs.items())
+        p['empty'] = dict((k, both_empty(a, b))
+                          for k, (a, b) in pairs.items())
+    except Exception as e:
+        status, exc = 'exception', e
+        trace.emit({'t': 'tb', 'tb': traceback.format_exc()})
+    trace.emit({'t': 'probe', 'name': 'hint', 'p': p})
+    _exit_event(trace, status, exc)
